@@ -3,7 +3,8 @@
 id=$1; patch=$2; tier=${3:-quick}
 cd /repo || exit 2
 if [ -n "$(git status --porcelain --untracked-files=no)" ]; then echo "repo not clean"; exit 2; fi
-git apply --3way "$patch" 2>/dev/null || git apply "$patch" || { echo "PATCH DOES NOT APPLY"; git checkout -- .; exit 3; }
+git apply --3way "$patch" 2>/dev/null || { git reset -q; git checkout -- .; git apply "$patch"; } || { echo "PATCH DOES NOT APPLY"; git reset -q; git checkout -- .; exit 3; }
+if git status --porcelain | grep -q '^UU\|^AA'; then echo "PATCH DOES NOT APPLY (conflict)"; git reset -q; git checkout -- .; exit 3; fi
 git reset -q   # keep the change in the working tree only
 cd /verif && ./check $id --tier $tier 2>&1 | tail -${4:-6}
 rc=${PIPESTATUS[0]}
